@@ -20,8 +20,9 @@ T = {
          "for all 28 bijection classes under the induction axiom; (mirror/direction) every delegating class's inverse pair is the sigma-mirror "
          "(child direction swapped, fold/scan order reversed, framing identical) of its forward pair and Invert calls the opposite child method; "
          "(iter) the MAF sequential inverse and the BNAF/bisection inverter have the required shape and take -forward log-det at the computed x; "
-         "(bin) the spline bin index stays inside the padded knot tables and clamps cut no feasible bin. Does NOT decide round-trip error size or "
-         "convergence to tolerance (floating-point quantities).", "3 C01"),
+         "(bin) the spline bin index stays inside the padded knot tables and clamps cut no feasible bin; (pair) every analytic leaf inverse equals the symbolic inverse of its transform; "
+         "(root) the quadratic solved by the spline inverse is exactly the forward equation (exact polynomial identity); (stable) no cancelling/overflowing exp-log spelling. Does NOT decide round-trip error size or "
+         "convergence to tolerance (floating-point quantities).", "3 C01 and 8.3"),
  "C02": ("rank abstract domain + exact rational-fragment term identity between sibling methods + symbolic differentiation",
          "Decides: (scalar) the log-det of every X_and_log_det is rank-0 in a rank domain; (neg) ld(inverse_and_log_det)(y) == -ld(transform_and_log_det)(x := inverse(y)) "
          "as a term identity for leaves (exact in the rational fragment), by mirror for delegating classes, at the computed x for MAF/BNAF, with the two named exceptions "
@@ -46,16 +47,16 @@ T = {
          "Decides: each combinator's transform equals its definition over the children's methods, inverse pair is its mirror, value agreement; a possibly-negative axis is normalised (with the right modulus) before being a tuple slice bound; shape/cond_shape algebra equals the jnp.concatenate/stack/vmap semantics; "
          "indexing/iteration/merge_chains/merge_transforms preserve order. Does NOT decide equality with a reference interpreter on generated trees.", "3 C08"),
  "C09": ("wrapper zero/sign-pattern domain + constant-propagating partial evaluation over the static configuration grid",
-         "Decides for all weight values: masks live in unwrap-time Where wrappers (not eager products); last MADE layer strict, others non-strict, for depth 0..3 x conditional/unconditional by constant propagation; rank/ mask helper orientation; coupling dependency sets; BNAF block-triangular/positive-diagonal wrapper tree and elementwise activation. "
+         "Decides for all weight values: masks live in unwrap-time Where wrappers (not eager products); last MADE layer strict, others non-strict, for depth 0..3 x conditional/unconditional by constant propagation; rank/ mask helper orientation; coupling dependency sets; per-coordinate transformer reconstruction; BNAF block-triangular/positive-diagonal wrapper tree (incl. softplus-positive weight-norm scale) and elementwise activation (depth grid 0..3, thorough 0..8). "
          "Does NOT decide numerical Jacobians or monotonicity of user activations.", "3 C09"),
  "C10": ("finite sign-case evaluation of where-blocks + ranking-function termination argument",
-         "Decides: the bisection while_loop has ranking function max_iter - iterations; for each sign in {-1,0,1} the bracket update keeps the sign invariant and halves the width, sign is exactly sign(func(mid)); adaptation moves the correct end by a doubling step, re-evaluates both new ends, collapses exact hits; driver solves coordinate i at coordinate i in order. "
+         "Decides: the bisection while_loop has ranking function max_iter - iterations; for each sign in {-1,0,1} the bracket update keeps the sign invariant and halves the width, sign is exactly sign(func(mid)); adaptation moves the correct end by a doubling step, re-evaluates both new ends, collapses exact hits; driver solves coordinate i at coordinate i in order; the public inverter forwards transform(x)-y, shape[0] and its configured lower/upper/tol/max_iter unchanged. "
          "Does NOT decide termination of interval adaptation for a given f nor accuracy at floating-point resolution.", "3 C10"),
  "C11": ("interval abstract domain on unwrap expressions + simplex/floor domain + guard dominance",
          "Decides for every finite raw value: softplus-reparameterised scales/diagonals/df are > 0, min-scale and min-derivative floors, planar w.u > -1 by the rational identity, weight-norm axis agreement, mixture weights through log_softmax, every spline bin has a positive floor; BijectionReparam stores inverse and applies transform; documented rejections exist, are boundary-inclusive and their result is consumed. "
          "Does NOT decide float under/overflow at the edge of the stated box.", "3 C11"),
  "C12": ("who-must-call / dominance over the call graph + sibling agreement of the four parameter partitions",
-         "Decides: every public entry point unwraps before touching fields; unwrap is recursive and wrapper-free; vectorised unwrap maps every array leaf; NonTrainable applies stop_gradient; the four trainable-parameter partitions agree on filter and is_leaf and recombine with the same static. "
+         "Decides: every public entry point unwraps before touching fields; unwrap is recursive and wrapper-free; vectorised unwrap maps every array leaf; wrappers without vectorised unwrap address trailing axes only; NonTrainable applies stop_gradient; the four trainable-parameter partitions agree on filter and is_leaf and recombine with the same static. "
          "Does NOT decide bit-identity after an actual run or equinox's vmapped-construction semantics.", "3 C12"),
  "C13": ("class-table coverage of the installation hook + exact-comparison and who-must-call rules",
          "Decides: the hook wraps exactly the abstract interface methods and every concrete class obtains each of the four from a class body (112 obligations); installed checks compare whole shape tuples exactly with `is not None` tests (no truthiness on shapes), failing branches raise, checked values are forwarded; constructors call their validators and validators raise on the documented predicate with tuple (non-broadcasting) comparisons. "
@@ -64,7 +65,7 @@ T = {
          "Decides: no Python control flow / bool()/int()/float() / numpy / math call on a traced value in any bijection/distribution method, unwrap or the bisection search (~120 functions); no array in a static field; no hidden state or foreign randomness. "
          "Does NOT decide numerical equality of jitted and eager results nor equinox's serialisation.", "3 C14"),
  "C15": ("reaching-definition dataflow on a hand-built CFG + train/val taint + PRNG-key typestate",
-         "Decides: co-permutation with one key and complementary slices of one bound (partition); per-epoch shuffles with fresh keys rebuilt only from themselves; prefix batching with one batch size and strict zip; no validation-derived value reaches step; every step/loss call gets a key split in the same iteration; caller/callee argument order. "
+         "Decides: co-permutation with one key and complementary slices of one bound (partition); per-epoch shuffles with fresh keys rebuilt only from themselves; prefix batching with one batch size and strict zip; no validation-derived value reaches step; every per-batch step/loss call gets a key that changes with the iteration; caller/callee argument order. "
          "Nothing is run; the row multiset is inferred under the jr.permutation/reshape/zip contracts.", "3 C15"),
  "C16": ("version (reaching-definition) analysis of the parameters the compared loss was evaluated at",
          "Decides: one train and one val record per epoch dominating the stopping test; the only break is guarded by count_fruitless(val) > max_patience in the not-best branch; best parameters are the version the compared loss was evaluated at (through the summary of step), the compared value is the minimum of the whole record; return selection. "
